@@ -66,6 +66,10 @@ PY = _pyth(65)
 def _rec(op, rnd, q, **kw):
     r = {'m': 'circles', 'op': op, 'q': q, 'sc': rnd.choice(SCALES)}
     r.update(kw)
+    # "any centre": a third of the seeded constructions live far from the origin (the harness translates every centre and point
+    # by `off` and translates every reported coordinate back; the offsets are not on the diagonal)
+    if rnd.random() < 0.35:
+        r['off'] = list(rnd.choice(((1000, -4096), (65536, -100000), (-30000, 8191))))
     return r
 
 
